@@ -41,6 +41,41 @@ func constString(v ssa.Value) (string, bool) {
 	return constant.StringVal(c.Value), true
 }
 
+// literalText: the constant text a print call emits (all operands constant strings; a format without verbs).
+func literalText(fc *fmtCall) (string, bool) {
+	switch fc.Kind {
+	case "print", "println":
+		if len(fc.Args) == 0 && fc.Kind == "print" {
+			return "", false
+		}
+		var parts []string
+		for _, a := range fc.Args {
+			s, ok := constString(a)
+			if !ok {
+				return "", false
+			}
+			parts = append(parts, s)
+		}
+		if fc.Kind == "println" {
+			return strings.Join(parts, " ") + "\n", true
+		}
+		return strings.Join(parts, ""), true // Fprint puts no blank between string operands
+	case "printf":
+		if len(fc.Args) != 0 {
+			return "", false
+		}
+		out := ""
+		for _, it := range parseFormat(fc.Format) {
+			if it.Verb != 0 {
+				return "", false
+			}
+			out += it.Literal
+		}
+		return out, true
+	}
+	return "", false
+}
+
 // section: keyword -> (element function, genome field)
 type section struct {
 	key   string
@@ -77,7 +112,108 @@ func appendedField(tm *Termer, blocks []*ssa.BasicBlock, elem ssa.Value) string 
 			}
 		}
 	}
+	// collected in a local list first, which is handed over as a whole afterwards
+	for _, b := range blocks {
+		for _, in := range b.Instrs {
+			if cl, ok := in.(*ssa.Call); ok {
+				if _, elems, ok := appendCall(cl); ok && len(elems) == 1 && elems[0] == elem {
+					if lc := collectedList(cl); lc != nil && lc.field != "" {
+						return lc.field
+					}
+				}
+			}
+		}
+	}
 	return ""
+}
+
+// localCollection: a local list that starts empty, grows only by `list = append(list, x)` at one place, and is
+// handed over to a field as a whole (obj.F = list / obj.F = append(obj.F, list...) / obj.addNodes(list)).
+type localCollection struct {
+	app    *ssa.Call          // the append
+	vals   map[ssa.Value]bool // the SSA values that are (versions of) the list
+	field  string             // the field that receives the list
+	events []ssa.Instruction  // the append and the hand-over
+}
+
+func collectedList(app *ssa.Call) *localCollection {
+	fn := app.Parent()
+	lc := &localCollection{app: app, vals: map[ssa.Value]bool{app: true}, events: []ssa.Instruction{app}}
+	Instrs(fn, func(_ *ssa.BasicBlock, _ int, in ssa.Instruction) {
+		if ph, ok := in.(*ssa.Phi); ok {
+			w := phiWeb(ph)
+			has := false
+			for _, fd := range w.Feeders {
+				if fd == ssa.Value(app) {
+					has = true
+				}
+			}
+			if !has {
+				return
+			}
+			// every other source of the list is an empty list
+			for _, fd := range w.Feeders {
+				if fd == ssa.Value(app) {
+					continue
+				}
+				if !emptyList(fd) {
+					return
+				}
+			}
+			lc.vals[ph] = true
+		}
+	})
+	base, _, _ := appendCall(app)
+	if !lc.vals[base] || len(lc.vals) < 2 {
+		return nil // not a list that is grown in a loop from empty
+	}
+	n := 0
+	Instrs(fn, func(_ *ssa.BasicBlock, _ int, in ssa.Instruction) {
+		switch x := in.(type) {
+		case *ssa.Store:
+			fld := StoredField(x)
+			if fld == nil {
+				return
+			}
+			if lc.vals[x.Val] {
+				lc.field, n = fld.Name(), n+1
+				lc.events = append(lc.events, x)
+				return
+			}
+			if cl, ok := x.Val.(*ssa.Call); ok {
+				if _, elems, ok := appendCall(cl); ok && elems == nil && lc.vals[cl.Call.Args[1]] {
+					lc.field, n = fld.Name(), n+1
+					lc.events = append(lc.events, x)
+				}
+			}
+		case ssa.CallInstruction:
+			if c := x.Common().StaticCallee(); c != nil && c.Name() == "addNodes" && len(x.Common().Args) == 2 && lc.vals[x.Common().Args[1]] {
+				lc.field, n = "Nodes", n+1
+				lc.events = append(lc.events, x)
+			}
+		}
+	})
+	if n != 1 {
+		lc.field = ""
+	}
+	return lc
+}
+
+// emptyList: nil, make([]T, 0[, n]), or a zero-length slice of a fresh array.
+func emptyList(v ssa.Value) bool {
+	switch x := v.(type) {
+	case *ssa.Const:
+		return x.Value == nil
+	case *ssa.MakeSlice:
+		k, ok := x.Len.(*ssa.Const)
+		return ok && k.Value != nil && k.Value.ExactString() == "0"
+	case *ssa.Slice:
+		if al, ok := x.X.(*ssa.Alloc); ok && x.Low == nil && x.High != nil && len(*al.Referrers()) == 1 {
+			k, ok := x.High.(*ssa.Const)
+			return ok && k.Value != nil && k.Value.ExactString() == "0"
+		}
+	}
+	return false
 }
 
 // firstResult returns the Extract #0 of a tuple call, or the call value itself.
@@ -128,15 +264,21 @@ func (c *c15) plainFraming() {
 		}
 		field := ct.Args[1].Args[0].Name
 		var kw, nl *fmtCall
+		kwText := ""
 		var elemCall ssa.CallInstruction
 		for i := range calls {
 			fc := &calls[i]
 			if !l.Blocks[fc.Call.Block()] {
 				continue
 			}
+			// what the call prints, when that is a constant text: the line break is the call that prints "\n"
+			// (Fprintln(w, "") / Fprint(w, "\n") / Fprintf(w, "\n")), the keyword the other constant text
+			txt, isTxt := literalText(fc)
 			switch {
-			case fc.Kind == "print" && len(fc.Args) == 1:
-				kw = fc
+			case isTxt && txt == "\n":
+				nl = fc
+			case isTxt && fc.Kind != "println":
+				kw, kwText = fc, txt
 			case fc.Kind == "println":
 				nl = fc
 			case fc.Kind == "printf" && strings.HasSuffix(fc.Format, "\n") && len(fc.Args) == 0:
@@ -157,7 +299,7 @@ func (c *c15) plainFraming() {
 			r.Bad(cons, p.Pos(firstBlockPos(l.Header)), fmt.Sprintf("the %s section does not consist of keyword, record and line break (keyword=%v record=%v newline=%v)", field, kw != nil, elemCall != nil, nl != nil))
 			continue
 		}
-		k, isStr := constString(kw.Args[0])
+		k, isStr := kwText, true
 		okKw := isStr && strings.HasSuffix(k, " ") && !strings.Contains(strings.TrimSuffix(k, " "), " ") && len(k) > 1
 		okOrder := instrBefore(kw.Call, elemCall) && instrBefore(elemCall, nl.Call)
 		at := wtm.Of(elemCall.Common().Args[len(elemCall.Common().Args)-1])
@@ -352,6 +494,107 @@ func (c *c15) plainFraming() {
 	}
 }
 
+// isAppendBuilt: v is a slice grown by append in a loop (a phi web fed by an empty make/nil and append calls on the web).
+func isAppendBuilt(v ssa.Value) bool {
+	if _, ok := v.(*ssa.Phi); !ok {
+		return false
+	}
+	for _, f := range phiWeb(v).Feeders {
+		if _, _, ok := appendCall(f); ok {
+			return true
+		}
+	}
+	return false
+}
+
+// appendLoop decides a list that is built by `list = append(list, x)` at one place inside a loop that counts over
+// 0..len(src)-1, starting from an empty list, the append being reached in every iteration that does not leave the
+// function with an error. Returns the appended value, the term of src and the loop counter.
+func appendLoop(fn *ssa.Function, tm *Termer, v ssa.Value) (elem ssa.Value, src *Term, idx ssa.Value, why string) {
+	web := phiWeb(v)
+	inWeb := func(x ssa.Value) bool {
+		if ph, ok := x.(*ssa.Phi); ok {
+			return web.Phis[ph]
+		}
+		for _, f := range web.Feeders {
+			if f == x {
+				return true
+			}
+		}
+		return false
+	}
+	loops := Loops(fn)
+	nApp := 0
+	for _, f := range web.Feeders {
+		if emptyList(f) {
+			continue
+		}
+		base, elems, ok := appendCall(f)
+		if !ok {
+			return nil, nil, nil, "the list is also assigned " + tm.Of(f).String() + " (or does not start empty)"
+		}
+		if !inWeb(base) || len(elems) != 1 {
+			return nil, nil, nil, "an append that does not add exactly one element to the list being built"
+		}
+		nApp++
+		if nApp > 1 {
+			return nil, nil, nil, "elements are appended at more than one place"
+		}
+		blk := f.(*ssa.Call).Block()
+		l := InnermostLoop(loops, blk)
+		if l == nil {
+			return nil, nil, nil, "the append is not in a loop"
+		}
+		i, bound, okc := countsUp(l)
+		if !okc {
+			return nil, nil, nil, "the enclosing loop is not a counter loop over a list"
+		}
+		bt := tm.Of(bound)
+		if bt.Op != "len" {
+			return nil, nil, nil, "the loop does not run up to the length of a list (" + bt.String() + ")"
+		}
+		// nothing skips an element
+		for _, g := range Guards(blk) {
+			if g.At != nil && l.Blocks[g.At] && g.At != l.Header {
+				if why := nonErrorGuard(tm, blk); why != "" {
+					return nil, nil, nil, "an element is appended only under the condition " + why
+				}
+			}
+		}
+		elem, src, idx = elems[0], bt.Args[0], i
+	}
+	if nApp == 0 {
+		return nil, nil, nil, "nothing is appended"
+	}
+	return elem, src, idx, ""
+}
+
+// appendedSection decides a list that is built by `list = append(list, encode(g.F[i]))` in a loop that runs over
+// all of g.F in order, starting from an empty list. Returns the genome field and the encoder.
+func (c *c15) appendedSection(fn *ssa.Function, tm *Termer, v ssa.Value) (field, enc, why string) {
+	elem, list, idx, why := appendLoop(fn, tm, v)
+	if why != "" {
+		return "", "", why
+	}
+	et := tm.Of(elem)
+	if et.Op == "extract" {
+		et = et.Args[0]
+	}
+	cl, isCall := et.V.(*ssa.Call)
+	if et.Op != "call" || !isCall || cl.Call.StaticCallee() == nil || len(et.Args) < 2 {
+		return "", "", "the appended element is " + et.String() + ", not the result of an encoder"
+	}
+	enc = cl.Call.StaticCallee().Name()
+	arg := et.Args[len(et.Args)-1]
+	if !(arg.Op == "elem" && len(arg.Args) > 1 && arg.Args[1].V == idx && arg.Args[0].String() == list.String()) {
+		return "", "", "the encoded value " + arg.String() + " is not the element of the list at the loop counter"
+	}
+	if !(list.Op == "field" && isParamIdx(list.Args[0], 1)) {
+		return "", "", "the encoded list " + list.String() + " is not a field of the genome"
+	}
+	return list.Name, enc, ""
+}
+
 func (c *c15) yamlFraming() {
 	p, r := c.p, c.r
 	label := "yaml.genome"
@@ -406,6 +649,14 @@ func (c *c15) yamlFraming() {
 			wsec[w.Key] = section{key: w.Key, fn: enc, field: field, pos: w.In.Pos()}
 		case w.Val == gmap && gmap != nil:
 			rootKey = w.Key
+		case isAppendBuilt(w.Val):
+			// list := make([]map, 0, n); for i := range g.F { list = append(list, encode(g.F[i])) }
+			field, enc, why := c.appendedSection(wfn, wtm, w.Val)
+			if why != "" {
+				r.Bad(label+".writer.list:"+w.Key, p.Pos(w.In.Pos()), fmt.Sprintf("the list under %q is not the element-wise encoding of one genome list: %s", w.Key, why))
+				continue
+			}
+			wsec[w.Key] = section{key: w.Key, fn: enc, field: field, pos: w.In.Pos()}
 		default:
 			if _, ok := w.Val.(*ssa.MakeMap); ok {
 				rootKey = w.Key
@@ -460,6 +711,9 @@ func (c *c15) yamlFraming() {
 		r.Check(yamlPairs[w.fn] == rs.fn && rs.field == w.field, cons, p.Pos(rs.pos), fmt.Sprintf("%q: %s(%s) <-> %s -> %s", k, w.fn, w.field, rs.fn, rs.field),
 			fmt.Sprintf("key %q: written by %s from %s, read by %s into %q; expected %s appending to %s", k, w.fn, w.field, rs.fn, rs.field, yamlPairs[w.fn], w.field))
 	}
+	// ids are resolved against the lists restored so far: the trait / node list a record reader receives is the list
+	// the earlier section was restored into, and that list is complete when it is read (nothing is added to it later)
+	c.yamlLookupLists(rfn, rtm, label)
 	// id and root
 	okId := false
 	for _, ci := range CallsTo(rfn, p.Func(PkgG, "newGenome")) {
@@ -487,6 +741,101 @@ func (c *c15) yamlFraming() {
 	// module links: inputs / outputs
 	c.yamlModuleLinks()
 }
+
+func (c *c15) yamlLookupLists(rfn *ssa.Function, rtm *Termer, label string) {
+	p, r := c.p, c.r
+	// what fills the genome's lists
+	var cols []*localCollection
+	Instrs(rfn, func(_ *ssa.BasicBlock, _ int, in ssa.Instruction) {
+		if cl, ok := in.(*ssa.Call); ok {
+			if _, elems, ok := appendCall(cl); ok && len(elems) == 1 {
+				if lc := collectedList(cl); lc != nil && lc.field != "" {
+					cols = append(cols, lc)
+				}
+			}
+		}
+	})
+	eventsOf := func(field string) []ssa.Instruction {
+		var out []ssa.Instruction
+		Instrs(rfn, func(_ *ssa.BasicBlock, _ int, in ssa.Instruction) {
+			switch x := in.(type) {
+			case *ssa.Store:
+				if fld := StoredField(x); fld != nil && fld.Name() == field {
+					if n, ok := deref(x.Addr.(*ssa.FieldAddr).X.Type()).(*types.Named); ok && n.Obj().Name() == "Genome" {
+						out = append(out, x)
+					}
+				}
+			case ssa.CallInstruction:
+				if cal := x.Common().StaticCallee(); cal != nil && field == "Nodes" && (cal.Name() == "addNode" || cal.Name() == "addNodes") {
+					out = append(out, x)
+				}
+			}
+		})
+		for _, lc := range cols {
+			if lc.field == field {
+				out = append(out, lc.app)
+			}
+		}
+		return out
+	}
+	n := 0
+	Instrs(rfn, func(_ *ssa.BasicBlock, _ int, in ssa.Instruction) {
+		cl, ok := in.(*ssa.Call)
+		if !ok {
+			return
+		}
+		cal := cl.Call.StaticCallee()
+		if cal == nil || !InRepo(cal) || yamlReaders[cal.Name()] == "" {
+			return
+		}
+		for _, a := range cl.Call.Args[1:] {
+			sl, ok := a.Type().Underlying().(*types.Slice)
+			if !ok {
+				continue
+			}
+			named, _ := deref(sl.Elem()).(*types.Named)
+			if named == nil {
+				continue
+			}
+			field := map[string]string{"Trait": "Traits", "NNode": "Nodes"}[named.Obj().Name()]
+			if field == "" {
+				continue
+			}
+			n++
+			cons := label + ".lookup:" + cal.Name() + "." + field
+			var events []ssa.Instruction
+			var from ssa.Instruction = cl
+			at := rtm.Of(a)
+			switch {
+			case at.Op == "field" && at.Name == field:
+				events = eventsOf(field)
+				if ld, ok := a.(ssa.Instruction); ok {
+					from = ld // the list is what the field holds when it is loaded
+				}
+			default:
+				for _, lc := range cols {
+					if lc.field == field && lc.vals[a] {
+						events = []ssa.Instruction{lc.app}
+					}
+				}
+			}
+			if len(events) == 0 {
+				r.Bad(cons, p.Pos(cl.Pos()), fmt.Sprintf("%s resolves %s ids against %s, which is not the list the %s of this document are restored into", cal.Name(), strings.ToLower(field), at, strings.ToLower(field)))
+				continue
+			}
+			isEv := map[ssa.Instruction]bool{}
+			for _, e := range events {
+				isEv[e] = true
+			}
+			path := FindPath(p, PathQuery{Fn: rfn, StartAfter: from, FlagBlind: true, Target: func(in ssa.Instruction) bool { return isEv[in] }})
+			r.Check(path == nil, cons, p.Pos(cl.Pos()), fmt.Sprintf("%s resolves ids against the completely restored %s", cal.Name(), field),
+				fmt.Sprintf("%s resolves ids against the %s list as it is before all %s of the document have been put into it: the looked-up %s are not found and the records are restored without them", cal.Name(), field, strings.ToLower(field), strings.ToLower(field)), path...)
+		}
+	})
+	r.Floor("id lists handed to the YAML record readers", n, 5)
+}
+
+var yamlReaders = map[string]string{"readNNode": "node", "readGene": "gene", "readMIMOControlGene": "module"}
 
 // yamlModuleLinks: inputs[i] <- id of Incoming[i].InNode, restored as Incoming[i] = link(NodeWithId(id) -> control node); outputs mirrored.
 func (c *c15) yamlModuleLinks() {
@@ -547,7 +896,16 @@ func (c *c15) yamlModuleLinks() {
 			}
 			lt := rtm.Of(ia.X)
 			if !(lt.Op == "field" && lt.Obj == listF) {
-				return
+				// a local alias: list := make(..); node.<list> = list; list[i] = ..
+				lt = nil
+				for _, fs := range FieldStores(rfn, listF) {
+					if fs.Val == ia.X {
+						lt = rtm.Of(fs.Addr)
+					}
+				}
+				if lt == nil {
+					return
+				}
 			}
 			vt := rtm.Of(st.Val)
 			if vt.Op != "call" || !strings.HasPrefix(vt.Name, "NewLink") || len(vt.Args) < 4 {
